@@ -132,9 +132,9 @@ def run(ctx: Ctx) -> None:
             nrun = sum(1 for a in scn.actors if a[0] == "poller")
             if ctx.quick and fam == "sql" and scn.name.split("|")[2] != "i1i2i3":
                 continue        # quick tier: the SQLite family runs the first arrival order only
-            cap = (120 if fam == "mem" else 25) if ctx.quick else 2500
+            cap = (120 if fam == "mem" else 25) if ctx.quick else 600
             if scn.name.startswith("cc-live"):
-                cap = (400 if fam == "mem" else 150) if ctx.quick else 6000
+                cap = (400 if fam == "mem" else 150) if ctx.quick else 2000
             jobs.append({"scn": cc.scn_dict(scn), "mode": "dfs", "preemptions": pre if nrun == 1 else pre + 1,
                          "max_exec": cap})
             jobs.append({"scn": cc.scn_dict(scn), "mode": "seeds",
